@@ -1,5 +1,11 @@
 import PyYetiVerif.Props.C10
 import PyYetiVerif.Props.C10Fde
+import PyYetiVerif.Props.C10Fix
+import PyYetiVerif.Props.C10FixFde
+import PyYetiVerif.Props.C10Bins
+import PyYetiVerif.Props.C10Labels
+import PyYetiVerif.Props.C10Psd
+import PyYetiVerif.Props.C10Locate
 #print axioms PyYetiVerif.C10.seq_first_selected
 #print axioms PyYetiVerif.C10.seq_alternates
 #print axioms PyYetiVerif.C10.seq_extremes_within_two_stol
@@ -34,3 +40,40 @@ import PyYetiVerif.Props.C10Fde
 #print axioms PyYetiVerif.C10.psd_quadratic_scaling
 #print axioms PyYetiVerif.C10.cycle_table_scaling
 #print axioms PyYetiVerif.C10.psd_quadratic_scaling_signal
+#print axioms PyYetiVerif.C10.findap_fixed_first_selected
+#print axioms PyYetiVerif.C10.findap_fixed_alternates
+#print axioms PyYetiVerif.C10.findap_fixed_extremes_within_stol
+#print axioms PyYetiVerif.C10.findap_fixed_variants_agree
+#print axioms PyYetiVerif.C10.findap_fixed_numba_variant
+#print axioms PyYetiVerif.C10.findap_fixed_unchanged_on_fast_path
+#print axioms PyYetiVerif.C10.findap_fixed_F4_example
+#print axioms PyYetiVerif.C10.findap_fixed_F14_F22_F23_examples
+#print axioms PyYetiVerif.C10.test_variance_reproduces_fixed
+#print axioms PyYetiVerif.C10.var_test_is_documented_variance
+#print axioms PyYetiVerif.C10.fix_F25_changes_var_test_only
+#print axioms PyYetiVerif.C10.digitize_eq_iff
+#print axioms PyYetiVerif.C10.explicit_bins_range
+#print axioms PyYetiVerif.C10.binify_drops_uncovered
+#print axioms PyYetiVerif.C10.binify_conserves_2d
+#print axioms PyYetiVerif.C10.binify_explicit_bins_spec
+#print axioms PyYetiVerif.C10.roundHalfEven_close
+#print axioms PyYetiVerif.C10.labels_distinct_of_gap
+#print axioms PyYetiVerif.C10.label_collision_example
+#print axioms PyYetiVerif.C10.getLabels_length
+#print axioms PyYetiVerif.C10.binify_packaging
+#print axioms PyYetiVerif.C10.sigcount_is_composition
+#print axioms PyYetiVerif.C10.sigcount_auto_conserves
+#print axioms PyYetiVerif.C10.binamps_formula
+#print axioms PyYetiVerif.C10.count_is_upper_cumulative
+#print axioms PyYetiVerif.C10.counts_antitone
+#print axioms PyYetiVerif.C10.bincount_diff
+#print axioms PyYetiVerif.C10.psd_G_formulas
+#print axioms PyYetiVerif.C10.psd_inverse_in_Q
+#print axioms PyYetiVerif.C10.resp_switch_G1_G2
+#print axioms PyYetiVerif.C10.fdeFreq_neg
+#print axioms PyYetiVerif.C10.psd_quadratic_scaling_full
+#print axioms PyYetiVerif.C10.psd_quadratic_scaling_input
+#print axioms PyYetiVerif.C10.find_unique_spec
+#print axioms PyYetiVerif.C10.find_unique_length
+#print axioms PyYetiVerif.C10.findap_uses_find_unique
+#print axioms PyYetiVerif.C10.find_unique_boundary_example
